@@ -61,6 +61,16 @@ def mapSet (script : Aid → List Action) (arg : Nat) (ret : Aid → Nat → Nat
 
 /-! ### groupby -/
 
+/-- the `by` functions the harness uses: the agent's class, or `unique_id % k` -/
+inductive GroupKey where
+  | ty
+  | uidMod (k : Nat)
+deriving Repr, DecidableEq
+
+def GroupKey.eval (w : World) : GroupKey → Aid → Nat
+  | .ty => tyOf w
+  | .uidMod k => fun a => uidOf w a % k
+
 /-- `set.groupby(by).do("do", method, arg)`: each group is an AgentSet (weak references);
     group after group, each with its own snapshot -/
 def groupDo (script : Aid → List Action) (arg : Nat) (key : Aid → Nat) (w : World) (t : Target) : World :=
@@ -74,5 +84,46 @@ def groupMap (script : Aid → List Action) (arg : Nat) (ret : Aid → Nat → N
       let (w', rs) := walkMap script arg ret acc.1 (g.2.filter (alive acc.1))
       (w', acc.2 ++ [(g.1, rs)]))
     (w, [])
+
+/-! ### histories -/
+
+inductive Op where
+  | newModel (g : Rng)
+  | create (m : Nat) (ty : Ty) (hold : Bool) (x : Int)
+  | createN (m : Nat) (ty : Ty) (hold : Bool) (xs : List Int)
+  | remove (a : Aid)
+  | removeAll (m : Nat)
+  | unhold (a : Aid)
+  | shuffle (t : Target)                 -- in place
+  | sort (t : Target) (asc : Bool)       -- in place
+  | mkSet (m : Nat) (l : List Aid)
+  | doSet (script : Aid → List Action) (arg : Nat) (t : Target)
+  | shuffleDo (script : Aid → List Action) (arg : Nat) (t : Target)
+  | mapSet (script : Aid → List Action) (arg : Nat) (t : Target)
+  | groupDo (script : Aid → List Action) (arg : Nat) (key : GroupKey) (t : Target)
+  | groupMap (script : Aid → List Action) (arg : Nat) (key : GroupKey) (t : Target)
+
+def step (w : World) : Op → World
+  | .newModel g => newModel w g
+  | .create m ty hold x => createAgent w m ty hold x
+  | .createN m ty hold xs => createN w m ty hold xs
+  | .remove a => removeAgent w a
+  | .removeAll m => removeAll w m
+  | .unhold a => unhold w a
+  | .shuffle t => shuffleInPlace w t
+  | .sort t asc => sortInPlace w t asc
+  | .mkSet m l => mkSet w m l
+  | .doSet script arg t => doSet script arg w t
+  | .shuffleDo script arg t => shuffleDo script arg w t
+  | .mapSet script arg t => (mapSet script arg (fun _ _ => 0) w t).1
+  | .groupDo script arg key t => groupDo script arg (key.eval w) w t
+  | .groupMap script arg key t => (groupMap script arg (fun _ _ => 0) (key.eval w) w t).1
+
+def run (w : World) (ops : List Op) : World := ops.foldl step w
+
+/-- an explicit in-place reordering of one of the registry's own sets -/
+def Op.reordersRegistry : Op → Bool
+  | .shuffle (.all _) | .shuffle (.byType _ _) | .sort (.all _) _ | .sort (.byType _ _) _ => true
+  | _ => false
 
 end Mesa.Agents
